@@ -149,4 +149,49 @@ WBase == 32768
 WNorm(hi, lo) == << hi + (lo \div WBase), lo % WBase >>
 WSumSq(s) == WNorm(CSum([q \in 1..Len(s) |-> (s[q] * s[q]) \div WBase]), CSum([q \in 1..Len(s) |-> (s[q] * s[q]) % WBase]))
 WAdd(a, b) == WNorm(a[1] + b[1], a[2] + b[2])
+(* ---------- any power-of-two length: characterisation by the twiddle table ---------- *)
+(* A linear map T on C^n with T(e_m)[k] = w[(m k) mod n] is the documented transform     *)
+(* r_k = sum_m c_m e^{sign 2 pi i m k / n} iff w[j] = e^{sign 2 pi i j / n}, and that     *)
+(* holds iff  w[0] = 1,  w[j+1] = w[j] w[1]  (w is a character of Z_n),  w[n/4] = i^sign  *)
+(* and  w[j] lies strictly inside the first (sign = -1: fourth) quadrant for 0 < j < n/4: *)
+(* the character property makes w[1] an n-th root of unity e^{sign 2 pi i (1+4t)/n}, and  *)
+(* for t # 0 some multiple j (1+4t) with j < n/4 leaves the quadrant.  The table w is     *)
+(* OBSERVED (transform of e_1, logged as round(v 2^wk)); the relations are checked with   *)
+(* the rounding slack of fixed-point products.  So twiddle factors and transform values   *)
+(* of every length are decided without TLC evaluating a cosine.                           *)
+MulRe(ar, ai, br, bi) == ar * br - ai * bi
+MulIm(ar, ai, br, bi) == ar * bi + ai * br
+\* |a b / 2^wk - c| <= slack for fixed-point a, b, c of modulus about 2^wk, each rounded to half a unit
+ProdNear(ar, ai, br, bi, cr, ci, wk, slack) ==
+  /\ CAbs(MulRe(ar, ai, br, bi) - cr * Pow2(wk)) <= slack * Pow2(wk)
+  /\ CAbs(MulIm(ar, ai, br, bi) - ci * Pow2(wk)) <= slack * Pow2(wk)
+TableOk(n, sign, wre, wim, wk) ==
+  LET one == Pow2(wk) IN
+  /\ Len(wre) = n /\ Len(wim) = n
+  /\ \A j \in 1..n : CAbs(wre[j]) <= one + 1 /\ CAbs(wim[j]) <= one + 1
+  /\ CAbs(wre[1] - one) <= 1 /\ CAbs(wim[1]) <= 1
+  /\ n >= 2 => (CAbs(wre[n \div 2 + 1] + one) <= 1 /\ CAbs(wim[n \div 2 + 1]) <= 1)
+  /\ n >= 4 => (CAbs(wre[n \div 4 + 1]) <= 1 /\ CAbs(wim[n \div 4 + 1] - sign * one) <= 1)
+  \* inside the quadrant, and moving monotonically through it
+  /\ \A j \in 1..(n \div 4 - 1) : /\ wre[j + 1] > 0 /\ sign * wim[j + 1] > 0
+                                  /\ wre[j + 1] <= wre[j] /\ sign * wim[j + 1] >= sign * wim[j]
+  \* character of Z_n: step and doubling
+  /\ n >= 2 => \A j \in 0..(n - 1) :
+       /\ ProdNear(wre[j + 1], wim[j + 1], wre[2], wim[2], wre[((j + 1) % n) + 1], wim[((j + 1) % n) + 1], wk, 2)
+       /\ ProdNear(wre[j + 1], wim[j + 1], wre[j + 1], wim[j + 1], wre[((2 * j) % n) + 1], wim[((2 * j) % n) + 1], wk, 2)
+\* the transform of the unit impulse at m is the m-th power of the table
+PowerOk(n, m, ere, eim, wre, wim) ==
+  /\ Len(ere) = n /\ Len(eim) = n
+  /\ \A k \in 0..(n - 1) : CAbs(ere[k + 1] - wre[((m * k) % n) + 1]) <= 1 /\ CAbs(eim[k + 1] - wim[((m * k) % n) + 1]) <= 1
+\* the transform of arbitrary data (integers x) is the linear combination with the table (coarsened to 2^ck so
+\* that n products stay below 2^31); X is logged as round(v 2^kX), kX <= ck
+ValuesOk(n, xre, xim, Xre, Xim, kX, wre, wim, wk, ck) ==
+  \E cre \in {[j \in 1..n |-> wre[j] \div Pow2(wk - ck)]} : \E cim \in {[j \in 1..n |-> wim[j] \div Pow2(wk - ck)]} :
+  \E l1 \in {CSum([m \in 1..n |-> CAbs(xre[m]) + CAbs(xim[m])])} :
+  \E isq \in {ISqrt(CSum([m \in 1..n |-> xre[m] * xre[m] + xim[m] * xim[m]]))} :
+  \E tol \in {ShiftUp(2 * l1 + n, kX - ck) + 2 + FxTol(Log2(n), isq, HalfLog(n), 0, kX)} :
+    /\ kX <= ck
+    /\ \A k \in 0..(n - 1) :
+         /\ CAbs(Xre[k + 1] - (CSum([m \in 1..n |-> MulRe(xre[m], xim[m], cre[(((m - 1) * k) % n) + 1], cim[(((m - 1) * k) % n) + 1])]) \div Pow2(ck - kX))) <= tol
+         /\ CAbs(Xim[k + 1] - (CSum([m \in 1..n |-> MulIm(xre[m], xim[m], cre[(((m - 1) * k) % n) + 1], cim[(((m - 1) * k) % n) + 1])]) \div Pow2(ck - kX))) <= tol
 =============================================================================
